@@ -11,6 +11,24 @@ import (
 
 // Rules for C04 (execution limits) and the sleep clause of C15.
 
+// soleBoolReturn: the statement list is a single `return <bool constant>`.
+func soleBoolReturn(info *types.Info, list []ast.Stmt) (bool, bool) {
+	if len(list) != 1 {
+		return false, false
+	}
+	rs, ok := list[0].(*ast.ReturnStmt)
+	if !ok || len(rs.Results) != 1 {
+		return false, false
+	}
+	if isBoolConst(info, rs.Results[0], true) {
+		return true, true
+	}
+	if isBoolConst(info, rs.Results[0], false) {
+		return false, true
+	}
+	return false, false
+}
+
 func isBeginEvalDefer(info *types.Info, d *ast.DeferStmt, begin *types.Func) bool {
 	// defer X.beginEval()()
 	inner, ok := ast.Unparen(d.Call.Fun).(*ast.CallExpr)
@@ -352,21 +370,68 @@ func init() {
 			nest := c.LookupField("lisp.Runtime.evalNesting")
 			if efn != nil && nest != nil {
 				eu := FuncUnit{efn, efd, epkg}
-				okCmp := false
+				// every comparison of evalNesting, read with its polarity (`!(n <= limit)` is `n > limit`),
+				// must be the strict one
+				okCmp, badCmp := false, false
+				var walk func(e ast.Expr, neg bool)
+				walk = func(e ast.Expr, neg bool) {
+					switch x := ast.Unparen(e).(type) {
+					case *ast.UnaryExpr:
+						if x.Op == token.NOT {
+							walk(x.X, !neg)
+							return
+						}
+					case *ast.BinaryExpr:
+						if x.Op == token.LAND || x.Op == token.LOR {
+							walk(x.X, neg)
+							walk(x.Y, neg)
+							return
+						}
+						op := x.Op
+						switch {
+						case FieldOfSelector(epkg.TypesInfo, x.X) == nest:
+						case FieldOfSelector(epkg.TypesInfo, x.Y) == nest:
+							op = map[token.Token]token.Token{token.LSS: token.GTR, token.GTR: token.LSS, token.LEQ: token.GEQ, token.GEQ: token.LEQ}[op]
+						default:
+							return
+						}
+						if neg {
+							op = map[token.Token]token.Token{token.LSS: token.GEQ, token.GTR: token.LEQ, token.LEQ: token.GTR, token.GEQ: token.LSS}[op]
+						}
+						if op == token.GTR {
+							okCmp = true
+						} else {
+							badCmp = true
+						}
+					}
+				}
 				ast.Inspect(efd.Body, func(n ast.Node) bool {
-					be, ok := n.(*ast.BinaryExpr)
-					if !ok {
-						return true
-					}
-					if FieldOfSelector(epkg.TypesInfo, be.X) == nest && be.Op == token.GTR {
-						okCmp = true
-					}
-					if FieldOfSelector(epkg.TypesInfo, be.Y) == nest && be.Op == token.LSS {
-						okCmp = true
+					switch x := n.(type) {
+					case *ast.ReturnStmt:
+						for _, r := range x.Results {
+							walk(r, false)
+						}
+						return false
+					case *ast.IfStmt:
+						// `if n <= limit { return false }` reads as the negated test
+						if b, ok := soleBoolReturn(epkg.TypesInfo, x.Body.List); ok {
+							walk(x.Cond, !b)
+						}
+					case *ast.CaseClause:
+						if b, ok := soleBoolReturn(epkg.TypesInfo, x.Body); ok {
+							for _, e := range x.List {
+								walk(e, !b)
+							}
+						}
+					case *ast.AssignStmt:
+						for _, r := range x.Rhs {
+							walk(r, false)
+						}
+						return false
 					}
 					return true
 				})
-				if okCmp {
+				if okCmp && !badCmp {
 					obs = append(obs, mkOb(c, "HEIGHT.nesting-check", eu, "evalNesting > limit", efd, Proved, "nesting (already incremented for this frame) is compared with `>`: depth never exceeds the limit", false))
 				} else {
 					obs = append(obs, mkOb(c, "HEIGHT.nesting-check", eu, "evalNesting > limit", efd, Violated, "evalNestingExceeded does not compare evalNesting > limit", true))
